@@ -8,3 +8,4 @@ import Calc.Props.C08
 #print axioms Calc.Props.C08.C08_accept
 #print axioms Calc.Props.C08.C08_domains
 #print axioms Calc.Props.C08.C08_bodies
+#print axioms Calc.Props.C08.C08_gcd_lcm
